@@ -398,8 +398,27 @@ def accumulate_rule(c, res, bf, is_cmd_discr, var):
             x_, y_ = y_, x_
         return x_ == ('phi', flag) and isinstance(y_, tuple) and y_[:1] == ('call',) and y_[1].endswith('Option::is_some') and \
             term_contains(y_, lambda z: isinstance(z, tuple) and len(z) == 4 and z[0] == 'call' and z[3] == ubb)
-    steps = [o for o in others if is_and_step(o[0])]
-    others = [o for o in others if not is_and_step(o[0])]
+    def is_and_phi(v):
+        # flag = flag && update(..).is_some(): the short-circuit form - a merged value whose alternatives are `false` (on the side where the flag
+        # was already false) and the verdict of this request's update
+        if not (isinstance(v, tuple) and v[:1] == ('phi',) and v[1] != flag):
+            return False
+        try:
+            cases = rules.value_cases(bf, v)
+        except Exception:
+            return False
+        seen_step = False
+        for dv, cs in cases:
+            if dv == ('const', 0) or dv == ('phi', flag):
+                continue
+            if isinstance(dv, tuple) and dv[:1] == ('call',) and dv[1].endswith('Option::is_some') and \
+                    term_contains(dv, lambda z: isinstance(z, tuple) and len(z) == 4 and z[0] == 'call' and z[3] == ubb):
+                seen_step = True
+                continue
+            return False
+        return seen_step
+    steps = [o for o in others if is_and_step(o[0]) or is_and_phi(o[0])]
+    others = [o for o in others if not (is_and_step(o[0]) or is_and_phi(o[0]))]
     okc = (len(clears) >= 1 or len(steps) >= 1) and all(bf.guarded_by_edges(bb, none_edges) for v, cs, bb in clears) and not others
     # re-arming: outside the loop, or in a block dominated by the queuing of the answers (the reset of the request counter)
     adds = [bb for bb, t in bf.calls() if callee_name(t).endswith('Uplink::add_mac_command') and rules.path_conditions(bf, bb) and
